@@ -281,12 +281,59 @@ class Prop(SeqProp):
         # itself (a NaN), equal objects of different types (1, 1.0, True), None, nested tuples and lists
         for _ in range(150 if tier == "quick" else 1500):
             out.append({"kind": "odd-elements", "seed": rng.randrange(1 << 30)})
+        # BatcherIter over a source that is consumed only as far as the batches handed over need it: a source that raises later,
+        # an iteration that is abandoned after some batches
+        for _ in range(40 if tier == "quick" else 400):
+            out.append({"kind": "batcheriter-lazy", "n": rng.randint(0, 12), "b": rng.randint(1, 4), "take": rng.randint(0, 4),
+                        "tuple": rng.random() < 0.4})
         # Batcher iterated (for / list / zip) and indexed, over sequences that are not lists: str, bytes, range, tuples of them
         for _ in range(60 if tier == "quick" else 600):
             out.append({"kind": "batcher-sequences", "n": rng.randint(0, 11), "b": rng.randint(1, 5), "type": rng.randrange(7)})
         return out
 
     def run_extra(self, desc):
+        if desc["kind"] == "batcheriter-lazy":
+            from windpyutils import generic as g
+            n, b, take, tup = desc["n"], desc["b"], desc["take"], desc["tuple"]
+
+            class Boom(Exception):
+                pass
+
+            def source(limit, fail):
+                for i in range(limit):
+                    yield i
+                if fail:
+                    raise Boom()
+
+            wrap = (lambda it: (it, iter(range(100, 100 + 10 ** 6)))) if tup else (lambda it: it)
+            unwrap = (lambda bat: list(bat[0])) if tup else list
+            # (1) the source raises after n items: every complete batch before that point has been handed over
+            got = []
+            try:
+                for bat in g.BatcherIter(wrap(source(n, True)), b):
+                    got.append(unwrap(bat))
+                return f"BatcherIter swallowed the exception of its source (n={n}, batch size {b})"
+            except Boom:
+                pass
+            want = [list(range(j * b, (j + 1) * b)) for j in range(n // b)]
+            if got != want:
+                return (f"BatcherIter over a source that raises after {n} items, batch size {b}{' (tuple input)' if tup else ''}: "
+                        f"batches handed over before the exception {got}, the complete batches are {want}")
+            # (2) an iteration abandoned after `take` batches has consumed exactly take * b items of a one-shot source
+            it = iter(range(n))
+            bi = iter(g.BatcherIter(wrap(it), b))
+            k = 0
+            for _ in range(take):
+                try:
+                    next(bi); k += 1
+                except StopIteration:
+                    break
+            if k == take and take * b < n:
+                nxt = next(it, None)
+                if nxt != take * b:
+                    return (f"after {take} batches of size {b} were taken from BatcherIter over a one-shot iterator of {n} items"
+                            f"{' (tuple input)' if tup else ''}, the iterator continues with {nxt!r}, not with item {take * b}")
+            return None
         if desc["kind"] == "batcher-sequences":
             from windpyutils import generic as g
             n, b = desc["n"], desc["b"]
